@@ -11,6 +11,15 @@ def intList? (s : String) : Option (List Int) :=
 
 def evalC16 (ins outs : List String) : Verdict :=
   match kv? ins "kind" with
+  | some "knowngossip" =>
+    -- a refused (already known) gossip header must not prune anything
+    match kv? outs "start", kv? outs "verdict", kvNat? outs "tail0", kvNat? outs "tail1", kv? outs "gone" with
+    | some "ok", some v, some t0, some t1, some gone =>
+      if v != "refuse" then .prop "c16_known_gossip_refused" s!"verdict={v}"
+      else if t1 != t0 || gone != "-" then .prop "c16_retention_refused_gossip" s!"tail {t0} -> {t1}, gone={gone}"
+      else .ok "knowngossip"
+    | some s, _, _, _, _ => .prop "c16_not_wedged" s!"knowngossip: start={s}"
+    | _, _, _, _, _ => .bad "C16 knowngossip fields"
   | some "estimate" =>
     match kvInt? ins "tp", kvInt? ins "bt", kvNat? ins "headH", kv? outs "res" with
     | some tp, some bt, some headH, some res =>
